@@ -10,6 +10,7 @@ import (
 	"strings"
 
 	"github.com/openconfig/goyang/pkg/yang"
+	"verif/internal/hooklog"
 	"verif/internal/job"
 	"verif/internal/prng"
 )
@@ -22,8 +23,34 @@ type rec struct {
 	mandatory string
 	min, max  *uint64
 	typ       string
+	units     string // units statement in the source
+	unitsSeen string // what Entry.Units shows: goyang fills it from deviations only (a leaf's own units live on its AST node and type)
 	removed   bool
-	parent    string // "" or container name
+	parent    string // "", "box" (container), "lst" (list), "ca" (case of choice ch), "g" (grouping used by u1 and u2)
+}
+
+// path returns the absolute entry path of the (first) instance of r.
+func (r *rec) path() string {
+	switch r.parent {
+	case "box":
+		return "/b/box/" + r.name
+	case "lst":
+		return "/b/lst/" + r.name
+	case "ca":
+		return "/b/ch/ca/" + r.name
+	case "g":
+		return "/b/u1/" + r.name
+	}
+	return "/b/" + r.name
+}
+
+// devPath returns the prefixed schema path used by a deviation to name r.
+func (r *rec) devPath() string {
+	p := ""
+	for _, st := range strings.Split(strings.TrimPrefix(r.path(), "/b/"), "/") {
+		p += "/bb:" + st
+	}
+	return p
 }
 
 func (r *rec) clone() *rec {
@@ -40,21 +67,6 @@ func (r *rec) clone() *rec {
 	return &c
 }
 
-type deviate struct {
-	kind      string // add replace delete not-supported
-	config    string
-	def       string
-	hasDef    bool
-	mandatory string
-	min, max  *uint64
-	typ       string
-}
-
-type deviation struct {
-	target *rec
-	devs   []*deviate
-}
-
 func u(v uint64) *uint64 { return &v }
 
 func printRec(b *strings.Builder, r *rec, ind string) {
@@ -64,6 +76,9 @@ func printRec(b *strings.Builder, r *rec, ind string) {
 	}
 	if r.typ != "" {
 		fmt.Fprintf(b, " type %s;", r.typ)
+	}
+	if r.units != "" {
+		fmt.Fprintf(b, " units %q;", r.units)
 	}
 	if r.config != "" {
 		fmt.Fprintf(b, " config %s;", r.config)
@@ -140,48 +155,95 @@ func Run(j *job.Job, s *job.Sink) {
 					rc.max = u(uint64(5 + r.Intn(3)))
 				}
 			}
-			if r.Intn(3) == 0 {
-				rc.parent = "box"
+			if (k == "leaf" || k == "leaf-list") && r.Intn(3) == 0 {
+				rc.units = fmt.Sprintf("u%d", i)
+			}
+			if r.Intn(2) == 0 {
+				rc.parent = []string{"box", "box", "lst", "ca", "g", "g"}[r.Intn(6)]
 			}
 			recs = append(recs, rc)
 		}
 		var base strings.Builder
-		base.WriteString("module b { yang-version 1.1; namespace \"urn:b\"; prefix b;\n")
-		for _, rc := range recs {
-			if rc.parent == "" {
-				printRec(&base, rc, "  ")
-				base.WriteString(" }\n")
+		base.WriteString("module b { yang-version 1.1; namespace \"urn:b\"; prefix b;\n  typedef tdu { type uint16; }\n")
+		section := func(parent, open, close string) {
+			base.WriteString(open)
+			for _, rc := range recs {
+				if rc.parent == parent {
+					printRec(&base, rc, "    ")
+					base.WriteString(" }\n")
+				}
 			}
+			base.WriteString(close)
 		}
-		base.WriteString("  container box {\n")
-		for _, rc := range recs {
-			if rc.parent != "" {
-				printRec(&base, rc, "    ")
-				base.WriteString(" }\n")
-			}
-		}
-		base.WriteString("  }\n}\n")
+		section("", "", "")
+		section("box", "  container box {\n", "  }\n")
+		section("lst", "  list lst { key k; leaf k { type string; }\n", "  }\n")
+		section("ca", "  choice ch { case ca { leaf filler { type string; }\n", "  } }\n")
+		section("g", "  grouping g { leaf gfiller { type string; }\n", "  }\n  container u1 { uses g; }\n  container u2 { uses g; }\n")
+		base.WriteString("}\n")
 		// deviations
 		exp := map[string]*rec{}
 		for _, rc := range recs {
 			exp[rc.name] = rc.clone()
 		}
-		var devText strings.Builder
-		devText.WriteString("module d { yang-version 1.1; namespace \"urn:d\"; prefix d; import b { prefix bb; }\n")
+		// one or two deviating modules; every deviation goes into one of them
+		ndm := 1 + r.Intn(2)
+		texts := make([]strings.Builder, ndm)
+		for mi := range texts {
+			nm := "d"
+			if mi > 0 {
+				nm = "e"
+			}
+			fmt.Fprintf(&texts[mi], "module %s { yang-version 1.1; namespace \"urn:%s\"; prefix %s; import b { prefix bb; }\n", nm, nm, nm)
+		}
+		devText := &texts[0]
+		allDev := func() string {
+			out := ""
+			for mi := range texts {
+				out += texts[mi].String()
+			}
+			return out
+		}
+		ignoreNS := r.Intn(6) == 0 // run with the ignore-not-supported option
 		wantErr := ""
 		nd := 1 + r.Intn(3)
 		targeted := map[string]bool{}
 		for i := 0; i < nd; i++ {
+			devText = &texts[r.Intn(ndm)]
+			// error-side templates the base generator cannot produce
+			if wantErr == "" && r.Intn(14) == 0 {
+				t := recs[r.Intn(len(recs))]
+				switch tpl := r.Intn(4); {
+				case tpl == 0:
+					steps := strings.Split(t.devPath(), "/")
+					steps[1+r.Intn(len(steps)-1)] = "bb:zz9"
+					fmt.Fprintf(devText, "  deviation %s { deviate replace { config true; } }\n", strings.Join(steps, "/"))
+					wantErr = "missing-target"
+					continue
+				case tpl == 1 && !targeted[t.name]:
+					targeted[t.name] = true
+					fmt.Fprintf(devText, "  deviation %s { deviate frobnicate; }\n", t.devPath())
+					wantErr = "unknown-deviate-kind"
+					continue
+				case tpl == 2 && !targeted[t.name] && (t.kind == "leaf" || t.kind == "leaf-list"):
+					targeted[t.name] = true
+					fmt.Fprintf(devText, "  deviation %s { deviate replace { type nosuchtype; } }\n", t.devPath())
+					wantErr = "unresolvable-type"
+					continue
+				case tpl == 3 && !targeted[t.name] && (t.kind == "leaf" || t.kind == "leaf-list"):
+					targeted[t.name] = true
+					fmt.Fprintf(devText, "  deviation %s { deviate replace { type bb:nosuchtype; } }\n", t.devPath())
+					wantErr = "unresolvable-type"
+					continue
+				}
+			}
 			t := recs[r.Intn(len(recs))]
 			if targeted[t.name] {
 				continue
 			}
 			targeted[t.name] = true
-			path := "/bb:" + t.name
-			if t.parent != "" {
-				path = "/bb:box/bb:" + t.name
-			}
-			fmt.Fprintf(&devText, "  deviation %s {\n", path)
+			path := t.devPath()
+			fmt.Fprintf(devText, "  deviation %s {\n", path)
 			cur := exp[t.name]
 			k := 1 + r.Intn(3)
 			firstKind := ""
@@ -198,13 +260,15 @@ func Run(j *job.Job, s *job.Sink) {
 					}
 				}
 				if dk == "not-supported" {
-					fmt.Fprintf(&devText, "    deviate not-supported;\n")
-					cur.removed = true
+					fmt.Fprintf(devText, "    deviate not-supported;\n")
+					if !ignoreNS {
+						cur.removed = true
+					}
 					break
 				}
-				fmt.Fprintf(&devText, "    deviate %s {", dk)
+				fmt.Fprintf(devText, "    deviate %s {", dk)
 				// pick one or two props
-				props := []string{"config", "default", "mandatory", "min", "max"}
+				props := []string{"config", "default", "mandatory", "min", "max", "units", "type"}
 				r.Shuffle(len(props), func(a, b int) { props[a], props[b] = props[b], props[a] })
 				np := 1 + r.Intn(2)
 				for _, p := range props[:np] {
@@ -216,17 +280,17 @@ func Run(j *job.Job, s *job.Sink) {
 								continue // grey: add existing
 							}
 							v := []string{"true", "false"}[r.Intn(2)]
-							fmt.Fprintf(&devText, " config %s;", v)
+							fmt.Fprintf(devText, " config %s;", v)
 							cur.config = v
 						case "replace":
 							v := []string{"true", "false"}[r.Intn(2)]
-							fmt.Fprintf(&devText, " config %s;", v)
+							fmt.Fprintf(devText, " config %s;", v)
 							cur.config = v
 						case "delete":
 							if cur.config == "" {
 								continue
 							}
-							fmt.Fprintf(&devText, " config %s;", cur.config)
+							fmt.Fprintf(devText, " config %s;", cur.config)
 							cur.config = ""
 						}
 					case "default":
@@ -236,7 +300,7 @@ func Run(j *job.Job, s *job.Sink) {
 						v := fmt.Sprintf("x%d%d", i, j)
 						switch dk {
 						case "add":
-							fmt.Fprintf(&devText, " default %q;", v)
+							fmt.Fprintf(devText, " default %q;", v)
 							if cur.kind == "leaf-list" {
 								cur.defaults = append(cur.defaults, v)
 							} else if len(cur.defaults) > 0 {
@@ -250,7 +314,7 @@ func Run(j *job.Job, s *job.Sink) {
 							if len(cur.defaults) == 0 {
 								continue // grey
 							}
-							fmt.Fprintf(&devText, " default %q;", v)
+							fmt.Fprintf(devText, " default %q;", v)
 							cur.defaults = []string{v}
 						case "delete":
 							if cur.kind == "leaf-list" {
@@ -258,17 +322,17 @@ func Run(j *job.Job, s *job.Sink) {
 							}
 							switch {
 							case len(cur.defaults) == 0:
-								fmt.Fprintf(&devText, " default %q;", v)
+								fmt.Fprintf(devText, " default %q;", v)
 								if wantErr == "" {
 									wantErr = "delete-default-absent"
 								}
 							case r.Intn(3) == 0:
-								fmt.Fprintf(&devText, " default %q;", v)
+								fmt.Fprintf(devText, " default %q;", v)
 								if wantErr == "" {
 									wantErr = "delete-default-different"
 								}
 							default:
-								fmt.Fprintf(&devText, " default %q;", cur.defaults[0])
+								fmt.Fprintf(devText, " default %q;", cur.defaults[0])
 								cur.defaults = nil
 							}
 						}
@@ -282,24 +346,44 @@ func Run(j *job.Job, s *job.Sink) {
 								continue
 							}
 							v := []string{"true", "false"}[r.Intn(2)]
-							fmt.Fprintf(&devText, " mandatory %s;", v)
+							fmt.Fprintf(devText, " mandatory %s;", v)
 							cur.mandatory = v
 						case "replace":
 							if cur.mandatory == "" {
 								continue
 							}
 							v := []string{"true", "false"}[r.Intn(2)]
-							fmt.Fprintf(&devText, " mandatory %s;", v)
+							fmt.Fprintf(devText, " mandatory %s;", v)
 							cur.mandatory = v
 						case "delete":
 							if cur.mandatory == "" {
 								continue
 							}
-							fmt.Fprintf(&devText, " mandatory %s;", cur.mandatory)
+							fmt.Fprintf(devText, " mandatory %s;", cur.mandatory)
 							cur.mandatory = ""
 						}
+					case "units":
+						if cur.kind != "leaf" && cur.kind != "leaf-list" {
+							continue
+						}
+						v := fmt.Sprintf("w%d%d", i, j)
+						switch {
+						case dk == "add" && cur.units == "", dk == "replace" && cur.units != "":
+							fmt.Fprintf(devText, " units %q;", v)
+							cur.units, cur.unitsSeen = v, v
+						}
+					case "type":
+						if (cur.kind != "leaf" && cur.kind != "leaf-list") || dk != "replace" {
+							continue
+						}
+						v := []string{"uint8", "int32", "boolean", "string", "tdu"}[r.Intn(5)]
+						fmt.Fprintf(devText, " type %s;", map[string]string{"tdu": "bb:tdu"}[v]+map[bool]string{true: "", false: v}[v == "tdu"])
+						cur.typ = v
 					case "min", "max":
 						isList := cur.kind == "list" || cur.kind == "leaf-list"
+						if !isList && r.Intn(5) > 0 {
+							continue // element bounds on a non-list are an error class of their own; keep them a minority
+						}
 						kw := p + "-elements"
 						ptr := &cur.min
 						if p == "max" {
@@ -311,7 +395,7 @@ func Run(j *job.Job, s *job.Sink) {
 								continue
 							}
 							v := uint64(2 + r.Intn(3))
-							fmt.Fprintf(&devText, " %s %d;", kw, v)
+							fmt.Fprintf(devText, " %s %d;", kw, v)
 							if !isList {
 								if wantErr == "" {
 									wantErr = "bounds-non-list"
@@ -324,7 +408,7 @@ func Run(j *job.Job, s *job.Sink) {
 								continue
 							}
 							v := uint64(2 + r.Intn(3))
-							fmt.Fprintf(&devText, " %s %d;", kw, v)
+							fmt.Fprintf(devText, " %s %d;", kw, v)
 							if !isList {
 								if wantErr == "" {
 									wantErr = "bounds-non-list"
@@ -334,24 +418,24 @@ func Run(j *job.Job, s *job.Sink) {
 							}
 						case "delete":
 							if !isList {
-								fmt.Fprintf(&devText, " %s 3;", kw)
+								fmt.Fprintf(devText, " %s 3;", kw)
 								if wantErr == "" {
 									wantErr = "bounds-non-list"
 								}
 								continue
 							}
 							if *ptr == nil {
-								fmt.Fprintf(&devText, " %s 4;", kw) // absent and different
+								fmt.Fprintf(devText, " %s 4;", kw) // absent and different
 								if wantErr == "" {
 									wantErr = "delete-bound-absent"
 								}
 							} else if r.Intn(3) == 0 {
-								fmt.Fprintf(&devText, " %s %d;", kw, **ptr+10)
+								fmt.Fprintf(devText, " %s %d;", kw, **ptr+10)
 								if wantErr == "" {
 									wantErr = "delete-bound-different"
 								}
 							} else {
-								fmt.Fprintf(&devText, " %s %d;", kw, **ptr)
+								fmt.Fprintf(devText, " %s %d;", kw, **ptr)
 								*ptr = nil
 							}
 						}
@@ -361,10 +445,12 @@ func Run(j *job.Job, s *job.Sink) {
 			}
 			devText.WriteString("  }\n")
 		}
-		devText.WriteString("}\n")
+		for mi := range texts {
+			texts[mi].WriteString("}\n")
+		}
 
-		caseDesc = map[string]string{"b.yang": base.String(), "d.yang": devText.String()}
-		for _, blk := range strings.Split(devText.String(), "deviation ")[1:] {
+		caseDesc = map[string]string{"b.yang": base.String(), "d.yang+e.yang": allDev(), "ignore_not_supported_option": fmt.Sprint(ignoreNS)}
+		for _, blk := range strings.Split(allDev(), "deviation ")[1:] {
 			kinds := map[string]bool{}
 			for _, k := range []string{"deviate add", "deviate replace", "deviate delete", "deviate not-supported"} {
 				if strings.Contains(blk, k) {
@@ -377,20 +463,33 @@ func Run(j *job.Job, s *job.Sink) {
 		}
 		s.Current(c, caseDesc)
 		s.Count("cases", 1)
-		if strings.Count(devText.String(), "deviate ") >= 2 {
+		if strings.Count(allDev(), "deviate ") >= 2 {
 			s.Count("nontrivial", 1)
 		}
+		var traceFindings []hooklog.DeviateFinding
+		traceApplied := 0
 		run := func(withDev bool) (*yang.Modules, []error) {
 			ms := yang.NewModules()
+			ms.ParseOptions.DeviateOptions.IgnoreDeviateNotSupported = ignoreNS
 			if err := ms.Parse(base.String(), "b.yang"); err != nil {
 				panic(err)
 			}
 			if withDev {
-				if err := ms.Parse(devText.String(), "d.yang"); err != nil {
-					return ms, []error{err}
+				for mi := range texts {
+					if err := ms.Parse(texts[mi].String(), []string{"d.yang", "e.yang"}[mi]); err != nil {
+						return ms, []error{err}
+					}
 				}
 			}
-			return ms, ms.Process()
+			var errs []error
+			evs := hooklog.Collect(func() { errs = ms.Process() })
+			if withDev {
+				// offline checker over the deviate trace: written order, each once
+				tf, n := hooklog.CheckDeviates(evs)
+				traceFindings = append(traceFindings, tf...)
+				traceApplied += n
+			}
+			return ms, errs
 		}
 		observe := func(ms *yang.Modules) map[string]string {
 			out := map[string]string{}
@@ -401,7 +500,11 @@ func Run(j *job.Job, s *job.Sink) {
 				if e.ListAttr != nil {
 					la = fmt.Sprintf("min=%d max=%d", e.ListAttr.MinElements, e.ListAttr.MaxElements)
 				}
-				out[e.Name] = fmt.Sprintf("cfg=%v def=%q mand=%v %s", e.Config, e.Default, e.Mandatory, la)
+				ty := ""
+				if e.Type != nil {
+					ty = e.Type.Name
+				}
+				out[e.Path()] = fmt.Sprintf("cfg=%v def=%q mand=%v units=%q type=%s %s", e.Config, e.Default, e.Mandatory, e.Units, ty, la)
 				var ks []string
 				for k := range e.Dir {
 					ks = append(ks, k)
@@ -438,7 +541,7 @@ func Run(j *job.Job, s *job.Sink) {
 			if d == nil {
 				d = []string{}
 			}
-			return fmt.Sprintf("cfg=%v def=%q mand=%v %s", cfg, d, mand, la)
+			return fmt.Sprintf("cfg=%v def=%q mand=%v units=%q type=%s %s", cfg, d, mand, rc.unitsSeen, rc.typ, la)
 		}
 		ms0, errs0 := run(false)
 		if len(errs0) > 0 {
@@ -446,12 +549,26 @@ func Run(j *job.Job, s *job.Sink) {
 			continue
 		}
 		before := observe(ms0)
+		// sanity of the harness itself: the reference record of every node equals what the
+		// library shows for the undeviated base (otherwise the monitor would blame goyang
+		// for a mistake of the generator)
+		for _, rc := range recs {
+			if got := before[rc.path()]; got != expect(rc) {
+				bad("harness-base-mismatch", "%s: lib %s, generator %s", rc.path(), got, expect(rc))
+			}
+		}
+		targetPath := map[string]*rec{}
+		for _, rc := range recs {
+			if targeted[rc.name] {
+				targetPath[rc.path()] = rc
+			}
+		}
 		verdicts := map[string]int{}
 		for rep := 0; rep < *reps; rep++ {
 			ms1, errs1 := run(true)
 			if wantErr != "" {
 				if len(errs1) == 0 {
-					bad("missing-error:"+wantErr, "\n%s%s", base.String(), devText.String())
+					bad("missing-error:"+wantErr, "\n%s%s", base.String(), allDev())
 					verdicts["noerr"]++
 					break
 				}
@@ -461,7 +578,7 @@ func Run(j *job.Job, s *job.Sink) {
 			if len(errs1) > 0 {
 				verdicts["err"]++
 				if rep == *reps-1 || len(verdicts) > 1 {
-					bad("unexpected-error", "%v\n%s%s", errs1[0], base.String(), devText.String())
+					bad("unexpected-error", "%v\n%s%s", errs1[0], base.String(), allDev())
 					break
 				}
 				continue
@@ -469,34 +586,71 @@ func Run(j *job.Job, s *job.Sink) {
 			verdicts["ok"]++
 			after := observe(ms1)
 			mism := false
-			for _, rc := range recs {
+			// targets
+			removedUnder := []string{}
+			for tp, rc := range targetPath {
 				want := expect(exp[rc.name])
-				got, present := after[rc.name]
+				got, present := after[tp]
 				switch {
 				case exp[rc.name].removed:
+					removedUnder = append(removedUnder, tp)
 					if present {
-						bad("not-removed", "%s", rc.name)
+						bad("not-removed", "%s", tp)
 						mism = true
 					}
 				case !present:
-					bad("missing-node", "%s", rc.name)
+					bad("missing-node", "%s", tp)
 					mism = true
-				case !targeted[rc.name]:
-					if got != before[rc.name] {
-						bad("frame", "%s: before %s after %s", rc.name, before[rc.name], got)
-						mism = true
-					}
 				case got != want:
-					bad("target-value", "%s: lib %s want %s\n%s", rc.name, got, want, devText.String())
+					bad("target-value", "%s: lib %s want %s\n%s", tp, got, want, allDev())
 					mism = true
 				}
 			}
+			// frame: everything that is not a target (or inside a removed target) is as
+			// in the run without the deviating modules, and nothing appeared
+			under := func(p string) bool {
+				for _, r := range removedUnder {
+					if p == r || strings.HasPrefix(p, r+"/") {
+						return true
+					}
+				}
+				return false
+			}
+			for p, v := range before {
+				if targetPath[p] != nil || under(p) {
+					continue
+				}
+				if got, ok := after[p]; !ok {
+					bad("frame-node-lost", "%s vanished although no deviation names it\n%s", p, allDev())
+					mism = true
+				} else if got != v {
+					bad("frame", "%s: before %s after %s\n%s", p, v, got, allDev())
+					mism = true
+				}
+			}
+			for p := range after {
+				if _, ok := before[p]; !ok {
+					bad("frame-node-appeared", "%s", p)
+					mism = true
+				}
+			}
+			s.Count("frame_nodes_compared", int64(len(before)))
 			if mism {
 				break
 			}
 		}
+		for _, f := range traceFindings {
+			bad(f.Class, "%s\n%s", f.Detail, allDev())
+		}
+		s.Count("trace_deviate_applications", int64(traceApplied))
+		if ignoreNS {
+			s.Count("cases_with_ignore_not_supported_option", 1)
+		}
+		if ndm > 1 {
+			s.Count("cases_with_two_deviating_modules", 1)
+		}
 		if len(verdicts) > 1 {
-			bad("verdict-unstable", "%v\n%s", verdicts, devText.String())
+			bad("verdict-unstable", "%v\n%s", verdicts, allDev())
 		}
 		if wantErr != "" {
 			s.Count("expected_error_cases", 1)
